@@ -102,6 +102,13 @@ of_linear_binary_code_finish_decoding_with_ml (of_linear_binary_code_cb_t	*ofcb)
 #endif
 
 	OF_ENTER_FUNCTION
+	if (of_is_decoding_complete ((of_session_t*)ofcb))
+	{
+		/* all the source symbols are already available (received or rebuilt by IT decoding): nothing left to solve. */
+		OF_TRACE_LVL (1, ("%s: decoding already complete\n", __FUNCTION__))
+		OF_EXIT_FUNCTION
+		return OF_STATUS_OK;
+	}
 	OF_TRACE_LVL (1, ("ML decoding on parity check matrix\n"))
 	/*
 	 *  Step 0: Matrix simplification, where we remove known symbols from the system, adding their value
